@@ -174,6 +174,23 @@ class Proxy(Family):
         return out
 
 
+class ProxyTrunc(Proxy):
+    """the proxy's acknowledgement reader under a stream that ends inside the acknowledgement (C08)"""
+
+    def generate(self, rng, tier):
+        out = []
+        for op in OPS:
+            for cut in range(20):
+                fdn = [100]
+                nums, u, f = op_args(rng, op, fdn, True)
+                b = W.hdr(PCODE[op], 5, 8) + W.u64(0)
+                script = [(bytes(b[:cut]), [])] if cut else []
+                steps = [VL([VS(op), VL([VN(x) for x in nums]), VH(u), VL([VN(x) for x in f]),
+                             VL([VL([VH(bb), VL([VN(x) for x in ff])]) for bb, ff in script])])]
+                out.append(([VL([VN(1), VN(1), VN(1)]), VL(steps)], "truncated-ack"))
+        return out
+
+
 class Psess(Family):
     name = "psess"
     shards = 16
